@@ -259,6 +259,10 @@ func genC01More(r *rng, g *tgen, root *Ty, desc *thrift.TypeDescriptor, val *Val
 				pns := make([]generic.PathNode, len(req))
 				for i, s := range req {
 					pns[i].Path = pathStep(s)
+					if ob&2 != 0 {
+						// a REUSED query slice: stale nodes from an earlier answer must be cleared (ClearDirtyValues)
+						pns[i].Node = generic.NewNode(thrift.I32, []byte{0, 0, 0, 9})
+					}
 				}
 				var e error
 				ok, _ := noPanic(func() {
@@ -527,6 +531,79 @@ func genC01Deep(r *rng) {
 				obs = panicObs
 			}
 			emit(4, p, obs)
+		}
+	}
+}
+
+// maps keyed by neither string nor integer (what Interface() routes to InterfaceMap) holding STRING-bearing elements,
+// converted with CastStringAsBinary: the option must reach the elements (and everything nested in them)
+func genC01Cast(r *rng) {
+	g := newTgen(r.fork())
+	str := func() *Ty { return &Ty{K: thrift.STRING} }
+	var elem *Ty
+	switch r.intn(5) {
+	case 0:
+		elem = str()
+	case 1:
+		elem = &Ty{K: thrift.LIST, Elem: str()}
+	case 2:
+		g.nname++
+		elem = &Ty{K: thrift.STRUCT, Name: "CS", Fields: []*Fld{{ID: 1, Name: "s", T: str()}, {ID: 2, Name: "n", T: &Ty{K: thrift.I32}}}}
+	case 3:
+		elem = &Ty{K: thrift.MAP, Key: str(), Elem: str()}
+	default:
+		elem = &Ty{K: thrift.MAP, Key: &Ty{K: thrift.DOUBLE}, Elem: str()}
+	}
+	var key *Ty
+	switch r.intn(4) {
+	case 0:
+		key = &Ty{K: thrift.DOUBLE}
+	case 1:
+		key = &Ty{K: thrift.BOOL}
+	case 2:
+		key = &Ty{K: thrift.STRUCT, Name: "CK", Fields: []*Fld{{ID: 1, Name: "k", T: &Ty{K: thrift.I32}}, {ID: 2, Name: "t", T: str()}}}
+	default:
+		key = []*Ty{str(), {K: thrift.I32}, {K: thrift.I16}}[r.intn(3)] // string / int keyed: only the direct InterfaceMap call goes through it
+	}
+	mt := &Ty{K: thrift.MAP, Key: key, Elem: elem}
+	var mv *Val
+	for try := 0; try < 10; try++ {
+		mv = g.genValue(mt, 1)
+		if len(mv.Elems) > 0 && descOK(mv) {
+			break
+		}
+	}
+	// the map alone, and the map below a list / a struct
+	tops := []*Val{mv, {T: &Ty{K: thrift.LIST, Elem: mt}, Elems: []*Val{mv}},
+		{T: &Ty{K: thrift.STRUCT, Name: "CT", Fields: []*Fld{{ID: 7, Name: "m", T: mt}}}, FIDs: []int16{7}, Fields: []*Val{mv}}}
+	for ti, top := range tops {
+		raw := top.encode(nil)
+		node := generic.NewNode(top.T.K, raw)
+		for _, api := range []int{1, 3} {
+			if api == 3 && ti != 0 {
+				continue
+			}
+			for _, ob := range []int{4, 4 | 8, 0} {
+				var x interface{}
+				var e error
+				ok, _ := noPanic(func() {
+					if api == 1 {
+						x, e = node.Interface(optsOf(ob))
+					} else {
+						x, e = node.InterfaceMap(optsOf(ob))
+					}
+				})
+				f := []string{fi(int(top.T.K)), fx(raw), fi(api), fi(ob)}
+				switch {
+				case !ok:
+					f = append(f, "n3", fx(nil))
+				case e != nil:
+					f = append(f, "n2", fx(nil))
+				default:
+					f = append(f, "n0", fx(dumpGo(x, nil)))
+				}
+				out.emit(105, f...)
+			}
 		}
 	}
 }
